@@ -24,7 +24,8 @@ func init() {
 			" R9 each change is parsed and compiled on its own (no parse cache, no parser state, fresh compilers, no x.f = x.f[:0])." +
 			" R10 kept patch text is not a window into a reader's buffer (C03-R12)." +
 			" R11 both sides of a change read names by the same declarations. R7 also: patch lines reach the parsers untrimmed." +
-			" R13 no comparison in the elision finder has two operands that both derive from offsets/positions of the patch text.",
+			" R13 no comparison in the elision finder has two operands that both derive from offsets/positions of the patch text." +
+			" R14 = C03-R17.",
 		Trusted:     commonTrusted,
 		Assumptions: commonAssumptions,
 	})
@@ -52,6 +53,7 @@ func runC13(r *an.Run) {
 	c04ImplicitDots(r)
 	relabel(r, "R9-implicit-leading-and-trailing-elision", "R12-a-first-column-elision-is-the-implicit-one")
 	finderIgnoresSpacing(r, "R13-the-elision-finder-ignores-spacing")
+	unterminatedLastLineIsALine(r, "R14-an-unterminated-last-line-is-a-line")
 }
 
 func c13CommentsSkipped(r *an.Run) {
@@ -98,6 +100,21 @@ func c13CommentsSkipped(r *an.Run) {
 	trims := an.CallsTo(ic, "bytes.TrimLeftFunc", "bytes.TrimSpace", "bytes.TrimLeft", "strings.TrimLeftFunc", "strings.TrimSpace", "strings.TrimLeft")
 	// (the line itself, or its conversion to a string)
 	okTrim := len(trims) == 1 && an.Unwrap(unconvert(trims[0].Common().Args[0])) == ssa.Value(ic.Params[0])
+	if len(trims) == 0 {
+		// the trimming in a one-line helper of its own (trimIndent(s)): a function of the package that is handed
+		// the line and returns what one of the trimming functions makes of its parameter
+		for _, c := range an.Calls(ic) {
+			h := an.StaticCallee(c)
+			if h == nil || !an.InModule(h) || h.Blocks == nil || len(h.Params) != 1 || len(c.Common().Args) != 1 || an.Unwrap(unconvert(c.Common().Args[0])) != ssa.Value(ic.Params[0]) {
+				continue
+			}
+			ht := an.CallsTo(h, "bytes.TrimLeftFunc", "bytes.TrimSpace", "bytes.TrimLeft", "strings.TrimLeftFunc", "strings.TrimSpace", "strings.TrimLeft")
+			rets := an.Returns(h)
+			if len(ht) == 1 && len(rets) == 1 && len(rets[0].Results) == 1 && rets[0].Results[0] == ht[0].Value() && an.Unwrap(unconvert(ht[0].Common().Args[0])) == ssa.Value(h.Params[0]) {
+				okTrim = true
+			}
+		}
+	}
 	r.Check(okTrim, short(ic)+"|trim", ic.Pos(), "isComment ignores leading white space")
 	hash := false
 	for _, ret := range an.Returns(ic) {
